@@ -29,8 +29,8 @@ var forAllLoops = []forAllLoop{
 	{[]string{"C06"}, "Agent.replaceRemoteInLocalCaches", "[]ice.Candidate", ".replaceRemoteCandidateCacheValues", "every local candidate's validated-source cache is re-pointed to the superseding remote", nil},
 	{[]string{"C12", "C13"}, "UDPMuxDefault.Close$1", "UDPMuxDefault.connsIPv4", ".Close", "closing the UDP mux closes every IPv4 connection", nil},
 	{[]string{"C12", "C13"}, "UDPMuxDefault.Close$1", "UDPMuxDefault.connsIPv6", ".Close", "closing the UDP mux closes every IPv6 connection", nil},
-	{[]string{"C15"}, "TCPMuxDefault.RemoveConnByUfrag", "[]*ice.tcpPacketConn", ".closeAndLogError", "every packet connection removed for the ufrag is closed", nil},
-	{[]string{"C15", "C13"}, "tcpPacketConn.Close", "tcpPacketConn.conns", ".closeAndLogError", "closing a packet connection closes every attached TCP connection", nil},
+	{[]string{"C15"}, "TCPMuxDefault.RemoveConnByUfrag", "[]*ice.tcpPacketConn", ".closeAndLogError|.Close", "every packet connection removed for the ufrag is closed", nil},
+	{[]string{"C15", "C13"}, "tcpPacketConn.Close", "tcpPacketConn.conns", ".closeAndLogError|.Close", "closing a packet connection closes every attached TCP connection", nil},
 	{[]string{"C15"}, "tcpPacketConn.SetWriteDeadline", "tcpPacketConn.conns", ".SetWriteDeadline", "a write deadline reaches every attached TCP connection", nil},
 }
 
@@ -82,7 +82,7 @@ func checkForAllLoops(p *Prog, r *Report, prop string) {
 				return true
 			})
 			skips := p.iterationSkips(f, rs, func(nd ast.Node) bool {
-				return p.nodeHasCall(nd, func(c *ast.CallExpr) bool { return strings.HasSuffix(p.CalleeName(c), e.Callee) })
+				return p.nodeHasCall(nd, func(c *ast.CallExpr) bool { return calleeHasSuffix(p.CalleeName(c), e.Callee) })
 			}, func(ed *Edge) bool {
 				if ed.Cond == nil || ed.Cond.X == nil {
 					return false
